@@ -7,6 +7,10 @@ verdict (error reported / not), output text (rendered from the specification's i
 (harness projection vs Parse(Ser(doc))), isEqualNode(original, re-parsed) vs the specification's answer, byte equality
 of the second serialisation, warning on forced CDATA splits.  XMLFormatter::formatBuf alone is driven through every
 (escape mode, unrepresentable-flag, encoding class, version) row on all values of <= 2 characters.
+Block loops of XMLFormatter (kTmpBufSize): spec/SerializerChunk.tla models handleUnEscapedChars' loop (every character of a run
+written exactly once, in order, for all runs around the block size and all character widths); spec/SerializerLong.tla proves
+uniformity of Ser in the repetition count on n = 1..3 and emits one-class values repeated N times (N around 16384 code units /
+16384 UTF-8 bytes) for text, attribute value, CDATA and comment in every encoding class - bound through the same binder T.
 
 Mutants (mutants/C12/*.diff; output of bin/mutant-run in mutants/C12/RESULT.txt):
   cr-not-escaped                  chCR removed from the CharEscapes list of XMLFormatter
@@ -16,6 +20,7 @@ Mutants (mutants/C12/*.diff; output of bin/mutant-run in mutants/C12/RESULT.txt)
   cdata-unrep-no-resume           procUnrepCharInCdataSection keeps writing references after the unrepresentable run ended
   xml11-controls-unescaped        XMLFormatter XML 1.1 control-character test inverted (binder F)
   cdata-end-marker-not-at-start   split-cdata-sections=false: ']]>' at the very start of the value no longer reported (!= -1 became > 0)
+  seeded/C12-a2                   handleUnEscapedChars decrements by the chars offered, not consumed (long runs truncated): long cases
 Genuine defects found on the unchanged tree are listed in known_findings.d/C12.json (17 entries).
 """
 import json
@@ -72,7 +77,7 @@ def _collect(out, name, r, p, what):
         # tag under which it is a listed finding, otherwise to the first tag
         line = m["case"].get("line")
         if m["case"].get("mode") == "T" and isinstance(line, list) and len(line) > 7:
-            for t in sorted(line[7]):
+            for t in sorted(line[10] if len(line) == 11 else line[7]):       # 11 fields: long-run case of SerializerLong
                 cand = dict(cls, action=t[0], contains=t[1])
                 if C.match_known("C12", cand, known) is not None:
                     cls = cand
@@ -145,8 +150,26 @@ def run(out, tier):
         cntf, summf = _collect(out, "fmt", rf, pf, "SerializerFmt")
     else:
         pf, rf, cntf = None, C.TlcResult(), {}
-    cov["states"] = states + rf.distinct
-    cov["transitions"] = trans + rf.generated
+    # 4. the block loop of XMLFormatter: model (SerializerChunk) and scaled cases around kTmpBufSize (SerializerLong)
+    cntl, rl, rc_ = {}, C.TlcResult(), C.TlcResult()
+    if not only or "long" in only:
+        rc_ = C.tlc("SerializerChunk", "SerializerChunk.%s.cfg" % tier, workers=4, coverage=True, timeout=8000, heap="4g")
+        C.tlc_must_pass(rc_, "SerializerChunk")
+        chunk_never = [a for a in ("AddChar", "Go", "Block", "Finish") if rc_.coverage.get(a, [0, 0])[0] == 0]
+        if chunk_never:
+            C.log("SerializerChunk actions never taken:", chunk_never)
+        pl = C.Piper([exe, "t", tier], timeout=9000, nproc=4)
+        rl = C.tlc("SerializerLong", "SerializerLong.%s.cfg" % tier, workers=4, on_chunk=pl.feed_chunk, timeout=8000, heap="4g")
+        pl.close()
+        cntl, summl = _collect(out, "long", rl, pl, "SerializerLong")
+        cov["L"] = dict(cases=cntl.get("cases", 0), serialisations=cntl.get("ser", 0), spec_check=rl.summary(), chunk_model=rc_.summary(),
+                        chunk_actions={a: rc_.coverage.get(a) for a in ("AddChar", "Go", "Block", "Finish")},
+                        lengths={k[4:]: v for k, v in cntl.items() if k.startswith("len:")})
+        samples += [C.decode_tlc_json(s) for s in pl.samples[1:2]]
+        cases += cntl.get("cases", 0)
+        compared += cntl.get("compared:ok", 0) + cntl.get("compared:error", 0)
+    cov["states"] = states + rf.distinct + rl.distinct + rc_.distinct
+    cov["transitions"] = trans + rf.generated + rl.generated + rc_.generated
     cov["spec_configs"] = per
     cov["spec_action_coverage"] = {a: actions.get(a, [0, 0]) for a in spec_actions}
     cov["spec_actions_never_taken"] = never
@@ -157,7 +180,7 @@ def run(out, tier):
     cov["F"] = dict(cases=cntf.get("cases", 0), formatBuf_calls=cntf.get("fmt", 0), spec_check=rf.summary(),
                     modes={k[5:]: v for k, v in cntf.items() if k.startswith("mode:")})
     cov["traces_validated_against_impl"] = cases + cntf.get("cases", 0)
-    cov["samples"] = samples[:3] + ([C.decode_tlc_json(s) for s in pf.samples[1:2]] if pf else [])
+    cov["samples"] = samples[:3] + samples[-1:] + ([C.decode_tlc_json(s) for s in pf.samples[1:2]] if pf else [])
     cov["exhaustive"] = True
     cov["evaluations"] = compared + cntf.get("fmt", 0)
     cov["distinct_nontrivial"] = cases + cntf.get("cases", 0)
@@ -184,7 +207,7 @@ def replay(out, path):
     known = C.load_known()
     for m in mism:
         cls = m["cls"]
-        for t in sorted(case["line"][7]) if mode == "t" else []:
+        for t in sorted(case["line"][10] if len(case["line"]) == 11 else case["line"][7]) if mode == "t" else []:
             cand = dict(cls, action=t[0], contains=t[1])
             if C.match_known("C12", cand, known) is not None:
                 cls = cand
